@@ -79,18 +79,20 @@ def scrub_input(v: Union[str, bytes]) -> bytes:
         raise TypeError('A bytes-like object is required (also str), not `%s`' % type(v).__name__)
 
 
+def _find_encoding(v: bytes) -> tuple:
+    try:
+        return next(encoding for encoding in base58_encodings if len(v) == encoding[1] and v.startswith(encoding[0]))
+    except StopIteration as e:
+        raise ValueError('Invalid encoding, prefix or length mismatch.') from e
+
+
 def base58_decode(v: bytes) -> bytes:
     """Decode data using Base58 with checksum + validate binary prefix against known kinds and cut in the end.
 
     :param v: Array of bytes (use string.encode())
     :returns: bytes
     """
-    try:
-        bin_prefix = next(
-            encoding[2] for encoding in base58_encodings if len(v) == encoding[1] and v.startswith(encoding[0])
-        )
-    except StopIteration as e:
-        raise ValueError('Invalid encoding, prefix or length mismatch.') from e
+    bin_prefix = _find_encoding(v)[2]
 
     decoded = base58.b58decode_check(v)
     if not decoded.startswith(bin_prefix):
@@ -116,7 +118,8 @@ def _validate(v: Union[str, bytes], prefixes: list):
     if isinstance(v, str):
         v = v.encode()
     v = scrub_input(v)
-    if any(map(v.startswith, prefixes)):
+    # NOTE: exact match of the kind, e.g. `BLpk...` starts with `B` but it is not a block hash
+    if any(map(v.startswith, prefixes)) and _find_encoding(v)[0] in prefixes:
         base58_decode(v)
     else:
         raise ValueError('Unknown prefix.')
